@@ -7,6 +7,7 @@ Model: `Verif.Model.Merkle` — the flat array and the loops of `core/util/merkl
 All theorems hold for every number of leaves `n ≥ 1` and every index — no bound.
 -/
 import Verif.Lemmas.MerklePath
+import Verif.Lemmas.MerkleSize
 namespace Verif.Props.C19
 open Verif.Merkle
 
@@ -93,6 +94,16 @@ theorem C19_export_load (ls : List α) (hn : 1 ≤ ls.length) :
     simp only [setTree, hsz, ne_eq, not_true_eq_false, if_false]
     rfl
   exact ⟨_, this, rfl, fun _ => rfl, fun _ => rfl⟩
+
+omit [DecidableEq α] in
+/-- … and `SetTree` rejects the exported array under any other leaf count (`computeSize` is strictly increasing). -/
+theorem C19_load_wrong_size (ls : List α) (hn : 1 ≤ ls.length) (m : Nat) (hm : m ≠ ls.length) :
+    setTree m (computeTree H z ls).tree = none := by
+  have hsz : (computeSize ls.length).1 = (computeTree H z ls).tree.size := by
+    rw [computeSize_spec H ls hn, ← Array.length_toList, tree_is_levels H z ls hn]
+  have hne : (computeSize m).1 ≠ (computeTree H z ls).tree.size := by
+    rw [← hsz]; exact fun e => hm (computeSize_injective _ _ e)
+  simp [setTree, hne]
 
 /-! ### The hypotheses of exclusivity are satisfiable -/
 
